@@ -190,7 +190,9 @@ static void runC01(const KCase& c, Ctx& ctx, const RunOpt& ro)
     if (ro.fields)
     {
       // lhs / rhs as documented in Krigtest_Res: the kriging system of the target
-      std::string T = topo(c);
+      // the library compresses (and fills its exported copies) only when some (sample, variable) pair of this
+      // very neighbourhood is undefined
+      std::string T = (S.nu == nv * (int)nbUse.size()) ? "isotopic" : "heterotopic";
       MatL Lh = toL(kt.lhs), Rh = toL(kt.rhs);
       if (Lh.rows() != S.N || Rh.rows() != S.N || Rh.cols() != nv)
       {
@@ -452,7 +454,8 @@ static KCase genIntrinsic()
 static KCase genFields()
 {
   GenOpt o;
-  o.heteroPct = 50;
+  o.heteroPct = 85; // the exported matrices are filled today only for heterotopic neighbourhoods (finding)
+  if (G::pct(60)) o.nvarMin = 2;
   o.nMax = 24;
   return genCase(o);
 }
